@@ -51,7 +51,31 @@ Inductive scase :=
 | SProcess (x : split_in) (obs : verdict)     (* ProcessHeader's class; the model must agree
                                                  whenever it has an objection, and the observed
                                                  class must not be wrong-chain when it has none *)
-| SVerify (hash prev genesis : N) (obs : verify_result).
+| SVerify (hash prev genesis : N) (obs : verify_result)
+| SVerifyLocator (obs : list N).        (* GetVerifyOnlyLocatorHashes *)
+
+(* the verify-only locator: the fork points of the required split and of every known split,
+   highest first, each once *)
+Fixpoint dedupN (seen l : list N) : list N :=
+  match l with
+  | [] => []
+  | a :: r => if memN a seen then dedupN seen r else a :: dedupN (a :: seen) r
+  end.
+Fixpoint insert_desc (p : Z * N) (l : list (Z * N)) : list (Z * N) :=
+  match l with
+  | [] => [p]
+  | q :: l' => if (fst q <? fst p)%Z then p :: l else q :: insert_desc p l'
+  end.
+Definition verify_only_locator : list N :=
+  dedupN [] (map snd (fold_right insert_desc []
+     ((required_height - 1, required_before)%Z :: map (fun s => (split_height s - 1, split_before s)%Z) splits))).
+
+Fixpoint listN_eqb (a b : list N) : bool :=
+  match a, b with
+  | [], [] => true
+  | x :: a', y :: b' => (x =? y) && listN_eqb a' b'
+  | _, _ => false
+  end.
 
 Definition scase_ok (c : scase) : bool :=
   match c with
@@ -61,5 +85,6 @@ Definition scase_ok (c : scase) : bool :=
       | None => negb (verdict_eqb obs VWrongChain) && negb (verdict_eqb obs VUnknown)
       end
   | SVerify h p g obs => verify_eqb (verify_header h p g) obs
+  | SVerifyLocator obs => listN_eqb verify_only_locator obs
   end.
 Definition smismatches (cs : list scase) : list N := failing (map scase_ok cs).
